@@ -3,6 +3,7 @@ package mbapp
 import (
 	"context"
 	"fmt"
+	"io"
 	"runtime"
 	"sync/atomic"
 	"time"
@@ -96,6 +97,9 @@ func (s *Swarm[A, Pub]) Ask(ctx context.Context, resp []byte, dst A, req p2p.IOV
 			Response: resp[:ask.n],
 		}
 		return 0, err
+	}
+	if ask.short {
+		return 0, io.ErrShortBuffer
 	}
 	return ask.n, nil
 }
